@@ -705,6 +705,8 @@ def check(ctx):
     ctx.run(check_cache, R="C02.pred.cache")
     ctx.run(c17.check_occluders, R="C02.pred.occluders")
     ctx.run(c17.check_plumbing, R="C02.pred.plumbing")
+    ctx.run(c17.check_wrappers, R="C02.pred.wrappers")
+    ctx.run(c17.check_frames, R="C02.pred.frames")
     from . import c16
 
     ctx.run(c16.check_algebra, R="C02.pred.algebra")
